@@ -53,8 +53,37 @@ def _mk(name, params, base, refs, pre, covers, timeout=60):
     return mk("C11." + name, params, body, covers=covers, pre=pre, timeout=timeout, functions=FUNCS, bounds=BOUNDS)
 
 
+FLOAT_MENU = """
+import itertools as _it
+VALS = (3.144, 3.146, 0.25, 2.675, -0.5, 0.0)
+BNDS = (3.142, 3.148, 3.14, 3.15, 0.2, 0.3, 0.25, 2.67, 2.68, -0.5, 0.0)
+vi, ai, bi, pi = conc(vi, 5), conc(ai, 10), conc(bi, 10), conc(pi, 2)
+with notrace():
+    refs = [lambda s: s.min(BNDS[ai]), lambda s: s.max(BNDS[bi]), lambda s: s.precision((1, 2, 15)[pi])]
+    outs = []
+    for order in _it.permutations(range(3)):
+        s = schema.float(VALS[vi])
+        try:
+            for i in order:
+                s = refs[i](s)
+        except DeclarationError:
+            s = None
+        outs.append(s)
+    nerr = sum(1 for s in outs if s is None)
+    if nerr == len(outs):
+        res = (True, "allerr")
+    elif nerr != 0:
+        res = (False, "some orders are rejected, others accepted")
+    else:
+        res = (all(outs[0] == s for s in outs[1:]), "allok")
+return res
+"""
+
+
 def harnesses(tier, seed, active_kf=()):
     out = []
+    out.append(mk("C11.float.menu.value.min.max.precision", "vi: int, ai: int, bi: int, pi: int", FLOAT_MENU, covers=("allok", "allerr"),
+                  pre=["0 <= vi <= 5", "0 <= ai <= 10", "0 <= bi <= 10", "0 <= pi <= 2"], timeout=200, functions=FUNCS, bounds=BOUNDS))
     # ---- int
     for val in (False, True):
         base = "schema.int(x)" if val else "schema.int"
